@@ -1,6 +1,10 @@
 #[inline(always)]
 pub fn shift_left_small(limbs: &mut [u64], amount: usize) -> u64 {
     debug_assert!(amount < 64);
+    if amount == 0 {
+        // `limb >> (64 - 0)` is not a valid shift; nothing moves.
+        return 0;
+    }
     let mut overflow = 0;
     for limb in limbs {
         let value = (*limb << amount) | overflow;
@@ -13,6 +17,10 @@ pub fn shift_left_small(limbs: &mut [u64], amount: usize) -> u64 {
 #[inline(always)]
 pub fn shift_right_small(limbs: &mut [u64], amount: usize) -> u64 {
     debug_assert!(amount < 64);
+    if amount == 0 {
+        // `limb << (64 - 0)` is not a valid shift; nothing moves.
+        return 0;
+    }
 
     let mut overflow = 0;
     for limb in limbs.iter_mut().rev() {
